@@ -271,3 +271,747 @@ Theorem rat_lt_trans a b c : wf a -> wf b -> wf c ->
 Proof.
   intros Ha Hb Hc. rewrite (lt_spec a b), (lt_spec b c), (lt_spec a c) by assumption. apply ext_lt_trans.
 Qed.
+
+(* ------------------------------------------------------------------------------------------- *)
+(* Q arithmetic on fractions n/d with d > 0                                                    *)
+(* ------------------------------------------------------------------------------------------- *)
+Lemma Qof_eq a b c d : 0 < b -> 0 < d -> ((Qof a b == Qof c d)%Q <-> a * d = c * b).
+Proof. apply Qeq_frac_iff. Qed.
+
+Lemma Qof_lt a b c d : 0 < b -> 0 < d -> ((Qof a b < Qof c d)%Q <-> a * d < c * b).
+Proof. apply Qlt_frac. Qed.
+
+Lemma Qof_add a b c d : 0 < b -> 0 < d -> (Qof a b + Qof c d == Qof (a * d + c * b) (b * d))%Q.
+Proof.
+  intros Hb Hd. unfold Qof, Qeq, Qplus; cbn [Qnum Qden].
+  rewrite Pos2Z.inj_mul, !Z2Pos.id by nia. ring.
+Qed.
+
+Lemma Qof_mul a b c d : 0 < b -> 0 < d -> (Qof a b * Qof c d == Qof (a * c) (b * d))%Q.
+Proof.
+  intros Hb Hd. unfold Qof, Qeq, Qmult; cbn [Qnum Qden].
+  rewrite Pos2Z.inj_mul, !Z2Pos.id by nia. ring.
+Qed.
+
+Lemma Qof_opp a b : (- Qof a b == Qof (- a) b)%Q.
+Proof. reflexivity. Qed.
+
+Lemma Qof_int k : inject_Z k = Qof k 1.
+Proof. reflexivity. Qed.
+
+Lemma Qof_inv_pos a b : 0 < a -> 0 < b -> (/ Qof a b == Qof b a)%Q.
+Proof.
+  intros Ha Hb. unfold Qof, Qinv; cbn [Qnum Qden]. destruct a as [|p|p]; try lia.
+  unfold Qeq; cbn [Qnum Qden Z.to_pos]. rewrite !Z2Pos.id by lia. ring.
+Qed.
+
+Lemma Qof_inv_neg a b : a < 0 -> 0 < b -> (/ Qof a b == Qof (- b) (- a))%Q.
+Proof.
+  intros Ha Hb. unfold Qof, Qinv; cbn [Qnum Qden]. destruct a as [|p|p]; try lia.
+  unfold Qeq; cbn [Qnum Qden Z.to_pos Z.opp]. rewrite <- Pos2Z.opp_pos, !Z2Pos.id by lia. ring.
+Qed.
+
+(* ------------------------------------------------------------------------------------------- *)
+(* ext_eq is an equivalence compatible with the operations                                     *)
+(* ------------------------------------------------------------------------------------------- *)
+Lemma ext_eq_refl x : ext_eq x x.
+Proof. destruct x; cbn; auto. reflexivity. Qed.
+
+Lemma ext_eq_sym x y : ext_eq x y -> ext_eq y x.
+Proof. destruct x, y; cbn; auto. intros; now symmetry. Qed.
+
+Lemma ext_eq_trans x y z : ext_eq x y -> ext_eq y z -> ext_eq x z.
+Proof. destruct x, y, z; cbn; auto; try tauto. intros H1 H2; now rewrite H1. Qed.
+
+Lemma ext_eq_of_eq x y : x = y -> ext_eq x y.
+Proof. intros ->. apply ext_eq_refl. Qed.
+
+Lemma Qsgn_compat p q : (p == q)%Q -> Z.sgn (Qnum p) = Z.sgn (Qnum q).
+Proof.
+  unfold Qeq. destruct p as [pn pd], q as [qn qd]; cbn. intros H.
+  destruct pn, qn; cbn in *; try lia; try reflexivity.
+Qed.
+
+Lemma ext_sgn_compat x y : ext_eq x y -> ext_sgn x = ext_sgn y.
+Proof. destruct x, y; cbn; try tauto. apply Qsgn_compat. Qed.
+
+Lemma ext_lt_compat x x' y y' : ext_eq x x' -> ext_eq y y' -> ext_lt x y -> ext_lt x' y'.
+Proof. destruct x, x', y, y'; cbn; try tauto. intros H1 H2 H. now rewrite <- H1, <- H2. Qed.
+
+Lemma ext_opp_compat x y : ext_eq x y -> ext_eq (ext_opp x) (ext_opp y).
+Proof. destruct x, y; cbn; try tauto. intros H; now rewrite H. Qed.
+
+Lemma ext_add_compat x x' y y' e : ext_eq x x' -> ext_eq y y' -> ext_add x y = Some e ->
+  exists e', ext_add x' y' = Some e' /\ ext_eq e e'.
+Proof.
+  destruct x, x', y, y'; cbn; try tauto; intros H1 H2 H; inversion H; subst; try discriminate;
+    eexists; (split; [reflexivity|]); cbn; auto. now rewrite H1, H2.
+Qed.
+
+Lemma ext_mul_compat x x' y y' e : ext_eq x x' -> ext_eq y y' -> ext_mul x y = Some e ->
+  exists e', ext_mul x' y' = Some e' /\ ext_eq e e'.
+Proof.
+  intros H1 H2. pose proof (ext_sgn_compat _ _ H1) as S1. pose proof (ext_sgn_compat _ _ H2) as S2.
+  destruct x, x', y, y'; cbn in H1, H2; try tauto; unfold ext_mul; rewrite <- ?S1, <- ?S2; intros H.
+  - inversion H; subst. eexists; split; [reflexivity|]. cbn. now rewrite H1, H2.
+  - exists e; split; [exact H|apply ext_eq_refl].
+  - exists e; split; [exact H|apply ext_eq_refl].
+  - exists e; split; [exact H|apply ext_eq_refl].
+  - exists e; split; [exact H|apply ext_eq_refl].
+  - exists e; split; [exact H|apply ext_eq_refl].
+  - exists e; split; [exact H|apply ext_eq_refl].
+  - exists e; split; [exact H|apply ext_eq_refl].
+  - exists e; split; [exact H|apply ext_eq_refl].
+Qed.
+
+Lemma wf_cases r : wf r ->
+  (0 < rat_den r /\ Z.gcd (rat_num r) (rat_den r) = 1) \/ r = mk_rat 1 0 \/ r = mk_rat (-1) 0.
+Proof. destruct r as [n d]; unfold wf; cbn. intros [H|[-> [->| ->]]]; auto. Qed.
+
+Lemma val_finite r : 0 < rat_den r -> val r = Fin (Qof (rat_num r) (rat_den r)).
+Proof. intros; apply val_fin; lia. Qed.
+
+Lemma gcd1_div_l f n d : Z.gcd n d = 1 -> (f | n) -> Z.gcd f d = 1.
+Proof.
+  intros H D. apply Zgcd_1_rel_prime. apply rel_prime_div with n; [apply Zgcd_1_rel_prime; exact H|exact D].
+Qed.
+
+Lemma gcd1_mul_r a b c : Z.gcd a b = 1 -> Z.gcd a c = 1 -> Z.gcd a (b * c) = 1.
+Proof. rewrite !Zgcd_1_rel_prime. apply rel_prime_mult. Qed.
+
+Lemma gcd1_sym a b : Z.gcd a b = 1 -> Z.gcd b a = 1.
+Proof. now rewrite Z.gcd_comm. Qed.
+
+Lemma gcd1_mul_l a b c : Z.gcd a c = 1 -> Z.gcd b c = 1 -> Z.gcd (a * b) c = 1.
+Proof. intros. apply gcd1_sym, gcd1_mul_r; now apply gcd1_sym. Qed.
+
+(* the general branch of rational::operator+ : gcd/lcm form, then res.num *= f *)
+Lemma add_general n d n' d' : 0 < d -> 0 < d' -> Z.gcd n d = 1 -> Z.gcd n' d' = 1 -> n <> 0 -> n' <> 0 ->
+  let f := Z.gcd n n' in
+  let g := Z.gcd d d' in
+  let res := rat_ctor_int_int (Z.quot n f * Z.quot d' g + Z.quot n' f * Z.quot d g) (Z.lcm d d') in
+  let r := set_rat_num res (rat_num res * f) in
+  0 < rat_den r /\ Z.gcd (rat_num r) (rat_den r) = 1 /\ rat_num r * (d * d') = (n * d' + n' * d) * rat_den r.
+Proof.
+  intros Hd Hd' Hg Hg' Hn Hn' f g.
+  assert (Hf : 0 < f) by (apply gcd_pos_l; assumption).
+  assert (Hgp : 0 < g) by (apply gcd_pos_l; lia).
+  destruct (Z.gcd_divide_l n n') as [na Hna]. destruct (Z.gcd_divide_r n n') as [nb Hnb].
+  destruct (Z.gcd_divide_l d d') as [da Hda]. destruct (Z.gcd_divide_r d d') as [db Hdb].
+  fold f in Hna, Hnb. fold g in Hda, Hdb.
+  assert (Q1 : Z.quot n f = na) by (apply quot_exact; lia).
+  assert (Q2 : Z.quot n' f = nb) by (apply quot_exact; lia).
+  assert (Q3 : Z.quot d g = da) by (apply quot_exact; lia).
+  assert (Q4 : Z.quot d' g = db) by (apply quot_exact; lia).
+  rewrite Q1, Q2, Q3, Q4.
+  assert (Hdap : 0 < da) by nia. assert (Hdbp : 0 < db) by nia.
+  assert (Hlcm : Z.lcm d d' = da * db * g).
+  { unfold Z.lcm. fold g. replace (d' / g) with db by (rewrite Hdb; symmetry; apply Z.div_mul; lia).
+    rewrite Z.abs_eq by nia. rewrite Hda at 1. ring. }
+  assert (Hl : Z.lcm d d' <> 0) by (rewrite Hlcm; nia).
+  unfold rat_ctor_int_int.
+  pose proof (normalize_fin (na * db + nb * da) (Z.lcm d d') Hl) as (Hrd & Hrg & Heq).
+  set (r0 := rat_normalize _) in *. unfold set_rat_num; cbn [rat_num rat_den].
+  split; [exact Hrd|]. split.
+  - (* canonical: f is coprime to the reduced denominator *)
+    apply gcd1_mul_l; [exact Hrg|].
+    assert (Hdiv : (rat_den r0 | Z.lcm d d')).
+    { apply Z.gauss with (rat_num r0); [exists (na * db + nb * da); lia|]. apply gcd1_sym; exact Hrg. }
+    assert (Hfl : Z.gcd f (Z.lcm d d') = 1).
+    { apply gcd1_div_l with (f * 1).
+      - rewrite Z.mul_1_r. assert (Hfd : Z.gcd f d = 1) by (apply gcd1_div_l with n; [exact Hg|exists na; lia]).
+        assert (Hfd' : Z.gcd f d' = 1) by (apply gcd1_div_l with n'; [exact Hg'|exists nb; lia]).
+        apply gcd1_sym. apply gcd1_div_l with (d * d'); [apply gcd1_sym, gcd1_mul_r; assumption|].
+        rewrite Hlcm. exists g. rewrite Hda, Hdb at 1. ring.
+      - exists 1; ring. }
+    apply gcd1_sym. apply gcd1_div_l with (Z.lcm d d'); [apply gcd1_sym; exact Hfl|exact Hdiv].
+  - rewrite Hlcm in Heq. clear Hlcm Hl Hg Hg' Q1 Q2 Q3 Q4 Hn Hn'. clearbody f g. subst n n' d d'.
+    apply Z.mul_reg_r with g; [lia|].
+    transitivity (rat_num r0 * (da * db * g) * (f * g * g)); [ring|]. rewrite Heq. ring.
+Qed.
+
+Lemma wf_mk_fin n d : 0 < d -> Z.gcd n d = 1 -> wf (mk_rat n d).
+Proof. intros; left; cbn; auto. Qed.
+
+Lemma val_mk_fin n d : 0 < d -> val (mk_rat n d) = Fin (Qof n d).
+Proof. intros. apply val_finite. cbn; lia. Qed.
+
+Lemma Some_inj {A} (x y : A) : Some x = Some y -> x = y.
+Proof. congruence. Qed.
+
+(* ------------------------------------------------------------------------------------------- *)
+(* arithmetic: a proof method that does not depend on the ORDER of the special cases           *)
+(* ------------------------------------------------------------------------------------------- *)
+(* Every operator of rational.cpp is a cascade of special cases (`if (num == 0 || is_infinite(rhs)) return rhs;` ...)
+   followed by a general branch. The proofs below split on the canonical forms of the operands (finite / +inf / -inf,
+   and the sign of a finite operand facing an infinity), destruct EVERY integer equality test of the generated
+   function in whatever order it appears, and then show for each leaf that the returned object is a correct result,
+   trying the possible shapes (an operand, an integer, an infinity, the general gcd/lcm or cross-reduction branch, a
+   normalised fraction). Reordering independent special cases, or rewriting the sign test of operator* in an equivalent
+   way, therefore leaves the proofs valid; dropping or corrupting a case does not. *)
+(* the general branch of rational::operator* : cross-reduce, then multiply *)
+Lemma mul_general n d n' d' : 0 < d -> 0 < d' ->
+  let c := rat_ctor_int_int n d' in
+  let e := rat_ctor_int_int n' d in
+  let r := rat_ctor_int_int (rat_num c * rat_num e) (rat_den c * rat_den e) in
+  0 < rat_den r /\ Z.gcd (rat_num r) (rat_den r) = 1 /\ rat_num r * (d * d') = (n * n') * rat_den r.
+Proof.
+  intros Hd Hd'. unfold rat_ctor_int_int.
+  pose proof (normalize_fin n d' ltac:(lia)) as (C1 & _ & C3). set (c := rat_normalize (mk_rat n d')) in *.
+  pose proof (normalize_fin n' d ltac:(lia)) as (E1 & _ & E3). set (e := rat_normalize (mk_rat n' d)) in *.
+  cbv zeta.
+  pose proof (normalize_fin (rat_num c * rat_num e) (rat_den c * rat_den e) ltac:(nia)) as (R1 & R2 & R3).
+  set (r := rat_normalize (mk_rat (rat_num c * rat_num e) (rat_den c * rat_den e))) in *. split; [exact R1|]. split; [exact R2|].
+  apply Z.mul_reg_r with (rat_den c * rat_den e); [nia|].
+  transitivity (rat_num r * (rat_den c * rat_den e) * (d * d')); [ring|]. rewrite R3.
+  transitivity ((rat_num c * d') * (rat_num e * d) * rat_den r); [ring|]. rewrite C3, E3. ring.
+Qed.
+
+Lemma pinf_eq : rat_POSITIVE_INFINITY = mk_rat 1 0. Proof. reflexivity. Qed.
+Lemma ninf_eq : rat_NEGATIVE_INFINITY = mk_rat (-1) 0. Proof. reflexivity. Qed.
+Lemma one_eq : rat_ONE = mk_rat 1 1. Proof. reflexivity. Qed.
+Lemma zero_eq : rat_ZERO = mk_rat 0 1. Proof. reflexivity. Qed.
+
+Lemma eq_rat_true a b : rat_eq_rat a b = true <-> a = b.
+Proof.
+  unfold rat_eq_rat. rewrite andb_true_iff, !Z.eqb_eq. destruct a, b; cbn. split; [intros [-> ->]; reflexivity|intros H; inversion H; auto].
+Qed.
+
+Lemma ext_sgn_fin n d : 0 < d -> ext_sgn (Fin (Qof n d)) = Z.sgn n.
+Proof. reflexivity. Qed.
+
+(* "R is a correct result for the exact value e" *)
+Definition ok (R : rat) (e : ext) : Prop := wf R /\ ext_eq (val R) e.
+
+Lemma ok_fin n d q : 0 < d -> Z.gcd n d = 1 -> (Qof n d == q)%Q -> ok (mk_rat n d) (Fin q).
+Proof. intros Hd Hg E. split; [now apply wf_mk_fin|]. rewrite val_mk_fin by assumption. exact E. Qed.
+
+Lemma ok_int k q : (Qof k 1 == q)%Q -> ok (mk_rat k 1) (Fin q).
+Proof. intros E. apply ok_fin; [lia|apply Z.gcd_1_r|exact E]. Qed.
+
+Lemma ok_pinf : ok (mk_rat 1 0) PInf.
+Proof. split; [right; cbn; lia|exact I]. Qed.
+
+Lemma ok_ninf : ok (mk_rat (-1) 0) NInf.
+Proof. split; [right; cbn; lia|exact I]. Qed.
+
+(* the general branch of operator+ / operator+=, whatever the way the result object is assembled *)
+Lemma ok_add_general n d n' d' R : 0 < d -> 0 < d' -> Z.gcd n d = 1 -> Z.gcd n' d' = 1 -> n <> 0 -> n' <> 0 ->
+  R = (let f := Z.gcd n n' in
+       let g := Z.gcd d d' in
+       let res := rat_ctor_int_int (Z.quot n f * Z.quot d' g + Z.quot n' f * Z.quot d g) (Z.lcm d d') in
+       set_rat_num res (rat_num res * f)) ->
+  ok R (Fin (Qof n d + Qof n' d')).
+Proof.
+  intros Hd Hd' Hg Hg' Hn Hn' ->. pose proof (add_general n d n' d' Hd Hd' Hg Hg' Hn Hn') as (H1 & H2 & H3).
+  cbv zeta in *. set (r := set_rat_num _ _) in *. split; [left; auto|].
+  rewrite val_finite by assumption. cbn [ext_eq]. rewrite Qof_add, Qof_eq by nia. lia.
+Qed.
+
+Lemma ok_mul_general n d n' d' R : 0 < d -> 0 < d' ->
+  R = (let c := rat_ctor_int_int n d' in
+       let e := rat_ctor_int_int n' d in
+       rat_ctor_int_int (rat_num c * rat_num e) (rat_den c * rat_den e)) ->
+  ok R (Fin (Qof n d * Qof n' d')).
+Proof.
+  intros Hd Hd' ->. pose proof (mul_general n d n' d' Hd Hd') as (H1 & H2 & H3). cbv zeta in *.
+  set (r := rat_ctor_int_int _ _) in *. split; [left; auto|].
+  rewrite val_finite by assumption. cbn [ext_eq]. rewrite Qof_mul, Qof_eq by nia. lia.
+Qed.
+
+Lemma ok_normalized m dd q : dd <> 0 -> (forall r, 0 < rat_den r -> rat_num r * dd = m * rat_den r -> (Qof (rat_num r) (rat_den r) == q)%Q) ->
+  ok (rat_normalize (mk_rat m dd)) (Fin q).
+Proof.
+  intros Hdd Hq. pose proof (normalize_fin m dd Hdd) as (H1 & H2 & H3). set (r := rat_normalize _) in *.
+  split; [left; auto|]. rewrite val_finite by assumption. cbn [ext_eq]. now apply Hq.
+Qed.
+
+(* destruct every equality test on integers that is still symbolic; contradictory branches die by lia *)
+Ltac split_tests :=
+  repeat match goal with
+         | |- context [Z.eqb ?x ?y] => destruct (Z.eqb_spec x y); try lia
+         end;
+  cbn [orb andb negb].
+
+Ltac qfin := cbn [ext_eq]; rewrite ?Qof_add, ?Qof_mul, ?Qof_eq by nia; first [ring|lia|nia].
+
+(* candidates for a leaf whose exact value is finite *)
+Ltac leaf_fin :=
+  subst;
+  first
+  [ apply ok_fin; [assumption|assumption|qfin]
+  | apply ok_int; qfin
+  | apply ok_add_general; [assumption|assumption|assumption|assumption|assumption|assumption|reflexivity]
+  | apply ok_mul_general; [assumption|assumption|reflexivity] ].
+
+Lemma ok_shift n d k q : 0 < d -> Z.gcd n d = 1 -> (Qof (n + k * d) d == q)%Q -> ok (mk_rat (n + k * d) d) (Fin q).
+Proof.
+  intros Hd Hg E. apply ok_fin; [exact Hd| |exact E]. rewrite Z.gcd_comm, Z.gcd_add_mult_diag_r, Z.gcd_comm. exact Hg.
+Qed.
+
+Ltac norm_vals :=
+  repeat match goal with |- context [val (mk_rat ?x ?y)] => rewrite (val_mk_fin x y) by assumption end;
+  unfold ext_of_Z; rewrite ?Qof_int.
+
+Ltac leaf_norm :=
+  apply ok_normalized; [lia|let r := fresh "r" in let Hr := fresh "Hr" in let Er := fresh "Er" in
+                            intros r Hr Er; rewrite ?Qof_mul, ?Qof_add, Qof_eq by lia; first [lia|nia]].
+
+(* a canonical zero has denominator 1 *)
+Ltac zero_den :=
+  repeat match goal with
+         | H : ?n = 0, G : Z.gcd ?n ?d = 1, P : 0 < ?d |- _ =>
+             is_var d; assert (d = 1) by (rewrite H, Z.gcd_0_l in G; lia); subst d
+         end.
+
+Ltac leaf_any :=
+  try match goal with |- wf ?R /\ ext_eq (val ?R) ?e => change (ok R e) end;
+  zero_den; subst;
+  first
+  [ exact ok_pinf
+  | exact ok_ninf
+  | apply ok_fin; [assumption|assumption|qfin]
+  | apply ok_int; qfin
+  | apply ok_shift; [assumption|assumption|qfin]
+  | apply ok_add_general; [assumption|assumption|assumption|assumption|assumption|assumption|reflexivity]
+  | apply ok_mul_general; [assumption|assumption|reflexivity]
+  | leaf_norm ].
+
+(* case analysis on the canonical forms of one / two operands *)
+Ltac cases1 a Ha :=
+  destruct (wf_cases a Ha) as [[?Hd ?Hg]|[->| ->]]; [destruct a as [?n ?d]; cbn [rat_num rat_den] in *| |].
+Ltac cases2 a b Ha Hb :=
+  cases1 a Ha; cases1 b Hb.
+
+Ltac simp_op :=
+  unfold is_infinite_rat, rat_eq_rat, rat_ctor_int, rat_ctor, set_rat_num, set_rat_den;
+  cbn [rat_num rat_den rat_ONE rat_ctor_int Z.eqb Pos.eqb Z.geb Z.leb Z.compare Pos.compare Pos.compare_cont Z.opp andb orb negb].
+
+(* additive family: no sign analysis needed *)
+Ltac solve_add F :=
+  norm_vals; cbn [ext_add ext_sub ext_opp val rat_num rat_den Z.eqb Z.ltb Z.compare];
+  let E := fresh "E" in intros E; try discriminate E; apply Some_inj in E; subst;
+  unfold F; simp_op; split_tests; leaf_any.
+
+(* multiplicative family: when one side is infinite the result depends on the sign of the other *)
+Ltac sign_split x E :=
+  destruct x as [|?p|?p]; cbn in E; try discriminate E.
+
+Ltac solve_mul F :=
+  norm_vals; unfold ext_mul; rewrite ?ext_sgn_fin by (assumption || lia);
+  cbn [val ext_sgn rat_num rat_den Z.eqb Z.ltb Z.compare];
+  let E := fresh "E" in intros E;
+  repeat match type of E with context [Z.sgn ?x] => is_var x; destruct x as [|?p|?p]; cbn in E; try discriminate E end;
+  cbn in E; try discriminate E; apply Some_inj in E; subst;
+  unfold F; simp_op; split_tests;
+  repeat match goal with |- context [match ?q with xI _ => _ | xO _ => _ | xH => _ end] => is_var q; destruct q end;
+  cbn [andb orb negb]; leaf_any.
+
+
+Theorem add_spec a b e : wf a -> wf b -> ext_add (val a) (val b) = Some e ->
+  wf (rat_add_rat a b) /\ ext_eq (val (rat_add_rat a b)) e.
+Proof. intros Ha Hb. cases2 a b Ha Hb; solve_add rat_add_rat. Qed.
+
+Theorem addeq_spec a b e : wf a -> wf b -> ext_add (val a) (val b) = Some e ->
+  wf (rat_addeq_rat a b) /\ ext_eq (val (rat_addeq_rat a b)) e.
+Proof. intros Ha Hb. cases2 a b Ha Hb; solve_add rat_addeq_rat. Qed.
+
+Theorem add_int_spec a k e : wf a -> ext_add (val a) (ext_of_Z k) = Some e ->
+  wf (rat_add_int a k) /\ ext_eq (val (rat_add_int a k)) e.
+Proof. intros Ha. cases1 a Ha; solve_add rat_add_int. Qed.
+
+Theorem addeq_int_spec a k e : wf a -> ext_add (val a) (ext_of_Z k) = Some e ->
+  wf (rat_addeq_int a k) /\ ext_eq (val (rat_addeq_int a k)) e.
+Proof. intros Ha. cases1 a Ha; solve_add rat_addeq_int. Qed.
+
+Theorem mul_spec a b e : wf a -> wf b -> ext_mul (val a) (val b) = Some e ->
+  wf (rat_mul_rat a b) /\ ext_eq (val (rat_mul_rat a b)) e.
+Proof. intros Ha Hb. cases2 a b Ha Hb; solve_mul rat_mul_rat. Qed.
+
+Theorem muleq_spec a b e : wf a -> wf b -> ext_mul (val a) (val b) = Some e ->
+  wf (rat_muleq_rat a b) /\ ext_eq (val (rat_muleq_rat a b)) e.
+Proof. intros Ha Hb. cases2 a b Ha Hb; solve_mul rat_muleq_rat. Qed.
+
+Theorem mul_int_spec a k e : wf a -> ext_mul (val a) (ext_of_Z k) = Some e ->
+  wf (rat_mul_int a k) /\ ext_eq (val (rat_mul_int a k)) e.
+Proof. intros Ha. cases1 a Ha; solve_mul rat_mul_int. Qed.
+
+Theorem muleq_int_spec a k e : wf a -> ext_mul (val a) (ext_of_Z k) = Some e ->
+  wf (rat_muleq_int a k) /\ ext_eq (val (rat_muleq_int a k)) e.
+Proof. intros Ha. cases1 a Ha; solve_mul rat_muleq_int. Qed.
+
+(* subtraction: a - b is a + (-b) in the code *)
+Theorem sub_spec a b e : wf a -> wf b -> ext_sub (val a) (val b) = Some e ->
+  wf (rat_sub_rat a b) /\ ext_eq (val (rat_sub_rat a b)) e.
+Proof.
+  intros Ha Hb H. unfold rat_sub_rat. destruct (neg_spec b Hb) as [Hn Hv].
+  apply add_spec; [exact Ha|exact Hn|]. rewrite Hv. exact H.
+Qed.
+
+Theorem subeq_spec a b e : wf a -> wf b -> ext_sub (val a) (val b) = Some e ->
+  wf (rat_subeq_rat a b) /\ ext_eq (val (rat_subeq_rat a b)) e.
+Proof.
+  intros Ha Hb H. unfold rat_subeq_rat. destruct (neg_spec b Hb) as [Hn Hv].
+  apply addeq_spec; [exact Ha|exact Hn|]. rewrite Hv. exact H.
+Qed.
+
+Theorem sub_int_spec a k e : wf a -> ext_sub (val a) (ext_of_Z k) = Some e ->
+  wf (rat_sub_int a k) /\ ext_eq (val (rat_sub_int a k)) e.
+Proof. intros Ha H. unfold rat_sub_int. apply add_int_spec; [exact Ha|exact H]. Qed.
+
+Theorem subeq_int_spec a k e : wf a -> ext_sub (val a) (ext_of_Z k) = Some e ->
+  wf (rat_subeq_int a k) /\ ext_eq (val (rat_subeq_int a k)) e.
+Proof. intros Ha H. unfold rat_subeq_int. apply addeq_int_spec; [exact Ha|exact H]. Qed.
+
+(* division: multiplication by the reciprocal that operator/ builds *)
+(* the reciprocal built by operator/ : den/num with the sign moved to the numerator *)
+Definition recip (b : rat) : rat :=
+  if Z.geb (rat_num b) 0 then mk_rat (rat_den b) (rat_num b) else mk_rat (- rat_den b) (- rat_num b).
+
+Lemma div_rat_unfold a b : rat_div_rat a b = rat_mul_rat a (recip b).
+Proof. unfold rat_div_rat, recip, set_rat_num, set_rat_den, rat_ctor; cbn [rat_num rat_den]. now destruct (Z.geb (rat_num b) 0). Qed.
+
+Lemma diveq_rat_unfold a b : rat_diveq_rat a b = rat_muleq_rat a (recip b).
+Proof. unfold rat_diveq_rat, recip, set_rat_num, set_rat_den, rat_ctor; cbn [rat_num rat_den]. now destruct (Z.geb (rat_num b) 0). Qed.
+
+Lemma val_int k : val (rat_ctor_int k) = ext_of_Z k.
+Proof. reflexivity. Qed.
+
+Lemma wf_int k : wf (rat_ctor_int k).
+Proof. apply ctor1_spec. Qed.
+
+Lemma div_int_unfold a k : rat_div_int a k = rat_mul_rat a (recip (rat_ctor_int k)).
+Proof.
+  unfold rat_div_int, recip, rat_ctor_int, set_rat_num, set_rat_den, rat_ctor; cbn [rat_num rat_den].
+  destruct (Z.geb k 0); reflexivity.
+Qed.
+
+Lemma diveq_int_unfold a k : rat_diveq_int a k = rat_muleq_rat a (recip (rat_ctor_int k)).
+Proof.
+  unfold rat_diveq_int, recip, rat_ctor_int, set_rat_num, set_rat_den, rat_ctor; cbn [rat_num rat_den].
+  destruct (Z.geb k 0); reflexivity.
+Qed.
+
+Lemma recip_spec b i : wf b -> ext_inv (val b) = Some i -> wf (recip b) /\ ext_eq (val (recip b)) i.
+Proof.
+  intros Hb. destruct (wf_cases b Hb) as [[Hd Hg]|[->| ->]].
+  - destruct b as [n d]; cbn [rat_num rat_den] in *. rewrite val_mk_fin by assumption.
+    unfold ext_inv, recip; cbn [Qof Qnum rat_num rat_den]. destruct (Z.eqb_spec n 0) as [->|Hn]; [discriminate|].
+    intros E; apply Some_inj in E; subst i. rewrite Z.geb_leb. destruct (Z.leb_spec 0 n).
+    + split; [apply wf_mk_fin; [lia|apply gcd1_sym; exact Hg]|]. rewrite val_mk_fin by lia. cbn [ext_eq].
+      symmetry. apply Qof_inv_pos; lia.
+    + split; [apply wf_mk_fin; [lia|rewrite Z.gcd_opp_l, Z.gcd_opp_r; apply gcd1_sym; exact Hg]|].
+      rewrite val_mk_fin by lia. cbn [ext_eq]. symmetry. apply Qof_inv_neg; lia.
+  - cbn. intros E; apply Some_inj in E; subst i. split; [left; cbn; lia|]. cbn. reflexivity.
+  - cbn. intros E; apply Some_inj in E; subst i. split; [left; cbn; lia|]. cbn. reflexivity.
+Qed.
+
+Lemma div_via_recip (mul : rat -> rat -> rat) a b e :
+  (forall x y e', wf x -> wf y -> ext_mul (val x) (val y) = Some e' -> wf (mul x y) /\ ext_eq (val (mul x y)) e') ->
+  wf a -> wf b -> ext_div (val a) (val b) = Some e -> wf (mul a (recip b)) /\ ext_eq (val (mul a (recip b))) e.
+Proof.
+  intros Hmul Ha Hb. unfold ext_div. destruct (ext_inv (val b)) as [i|] eqn:Ei; [|discriminate]. intros H.
+  destruct (recip_spec b i Hb Ei) as [Hr Hv].
+  destruct (ext_mul_compat (val a) (val a) i (val (recip b)) e (ext_eq_refl _) (ext_eq_sym _ _ Hv) H) as (e' & He' & Hee).
+  destruct (Hmul a (recip b) e' Ha Hr He') as [W V]. split; [exact W|].
+  apply ext_eq_trans with e'; [exact V|apply ext_eq_sym; exact Hee].
+Qed.
+
+Theorem div_spec a b e : wf a -> wf b -> ext_div (val a) (val b) = Some e ->
+  wf (rat_div_rat a b) /\ ext_eq (val (rat_div_rat a b)) e.
+Proof. intros Ha Hb H. rewrite div_rat_unfold. exact (div_via_recip rat_mul_rat a b e mul_spec Ha Hb H). Qed.
+
+Theorem diveq_spec a b e : wf a -> wf b -> ext_div (val a) (val b) = Some e ->
+  wf (rat_diveq_rat a b) /\ ext_eq (val (rat_diveq_rat a b)) e.
+Proof. intros Ha Hb H. rewrite diveq_rat_unfold. exact (div_via_recip rat_muleq_rat a b e muleq_spec Ha Hb H). Qed.
+
+Theorem div_int_spec a k e : wf a -> ext_div (val a) (ext_of_Z k) = Some e ->
+  wf (rat_div_int a k) /\ ext_eq (val (rat_div_int a k)) e.
+Proof. intros Ha H. rewrite div_int_unfold. exact (div_via_recip rat_mul_rat a (rat_ctor_int k) e mul_spec Ha (wf_int k) H). Qed.
+
+Theorem diveq_int_spec a k e : wf a -> ext_div (val a) (ext_of_Z k) = Some e ->
+  wf (rat_diveq_int a k) /\ ext_eq (val (rat_diveq_int a k)) e.
+Proof. intros Ha H. rewrite diveq_int_unfold. exact (div_via_recip rat_muleq_rat a (rat_ctor_int k) e muleq_spec Ha (wf_int k) H). Qed.
+
+(* left-scalar friends: I op rational is rational(I) op rational in the code *)
+Theorem int_add_spec k b e : wf b -> ext_add (ext_of_Z k) (val b) = Some e ->
+  wf (int_add_rat k b) /\ ext_eq (val (int_add_rat k b)) e.
+Proof. intros Hb H. apply add_spec; [apply wf_int|exact Hb|exact H]. Qed.
+
+Theorem int_sub_spec k b e : wf b -> ext_sub (ext_of_Z k) (val b) = Some e ->
+  wf (int_sub_rat k b) /\ ext_eq (val (int_sub_rat k b)) e.
+Proof. intros Hb H. apply sub_spec; [apply wf_int|exact Hb|exact H]. Qed.
+
+Theorem int_mul_spec k b e : wf b -> ext_mul (ext_of_Z k) (val b) = Some e ->
+  wf (int_mul_rat k b) /\ ext_eq (val (int_mul_rat k b)) e.
+Proof. intros Hb H. apply mul_spec; [apply wf_int|exact Hb|exact H]. Qed.
+
+Theorem int_div_spec k b e : wf b -> ext_div (ext_of_Z k) (val b) = Some e ->
+  wf (int_div_rat k b) /\ ext_eq (val (int_div_rat k b)) e.
+Proof. intros Hb H. apply div_spec; [apply wf_int|exact Hb|exact H]. Qed.
+
+(* ------------------------------------------------------------------------------------------- *)
+(* compound assignments compute exactly what the binary operators compute                      *)
+(* ------------------------------------------------------------------------------------------- *)
+(* canonical forms are unique, so two correct results are the same machine value *)
+Theorem wf_val_inj a b : wf a -> wf b -> ext_eq (val a) (val b) -> a = b.
+Proof. intros Ha Hb H. apply eq_rat_true. now apply eq_spec. Qed.
+
+Lemma ok_unique R R' e : ok R e -> ok R' e -> R = R'.
+Proof.
+  intros [W V] [W' V']. apply wf_val_inj; [exact W|exact W'|]. apply ext_eq_trans with e; [exact V|apply ext_eq_sym; exact V'].
+Qed.
+
+Lemma compound_is_binary (x y : option ext) (R R' : rat) :
+  (forall e, x = Some e -> ok R e) -> (forall e, x = Some e -> ok R' e) -> x <> None -> R = R'.
+Proof. intros H1 H2 Hx. destruct x as [e|]; [|congruence]. exact (ok_unique R R' e (H1 e eq_refl) (H2 e eq_refl)). Qed.
+
+Theorem addeq_rat_is_add a b : wf a -> wf b -> ext_add (val a) (val b) <> None -> rat_addeq_rat a b = rat_add_rat a b.
+Proof. intros Ha Hb. apply (compound_is_binary _ None); intros e H; [now apply addeq_spec|now apply add_spec]. Qed.
+
+Theorem subeq_rat_is_sub a b : wf a -> wf b -> ext_sub (val a) (val b) <> None -> rat_subeq_rat a b = rat_sub_rat a b.
+Proof. intros Ha Hb. apply (compound_is_binary _ None); intros e H; [now apply subeq_spec|now apply sub_spec]. Qed.
+
+Theorem muleq_rat_is_mul a b : wf a -> wf b -> ext_mul (val a) (val b) <> None -> rat_muleq_rat a b = rat_mul_rat a b.
+Proof. intros Ha Hb. apply (compound_is_binary _ None); intros e H; [now apply muleq_spec|now apply mul_spec]. Qed.
+
+Theorem diveq_rat_is_div a b : wf a -> wf b -> ext_div (val a) (val b) <> None -> rat_diveq_rat a b = rat_div_rat a b.
+Proof. intros Ha Hb. apply (compound_is_binary _ None); intros e H; [now apply diveq_spec|now apply div_spec]. Qed.
+
+Theorem addeq_int_is_add a k : wf a -> rat_addeq_int a k = rat_add_int a k.
+Proof.
+  intros Ha. apply (compound_is_binary (ext_add (val a) (ext_of_Z k)) None).
+  - intros e H. now apply addeq_int_spec.
+  - intros e H. now apply add_int_spec.
+  - destruct (val a); cbn; discriminate.
+Qed.
+
+Theorem subeq_int_is_sub a k : wf a -> rat_subeq_int a k = rat_sub_int a k.
+Proof. intros Ha. unfold rat_subeq_int, rat_sub_int. now apply addeq_int_is_add. Qed.
+
+Theorem muleq_int_is_mul a k : wf a -> ext_mul (val a) (ext_of_Z k) <> None -> rat_muleq_int a k = rat_mul_int a k.
+Proof. intros Ha. apply (compound_is_binary _ None); intros e H; [now apply muleq_int_spec|now apply mul_int_spec]. Qed.
+
+Theorem diveq_int_is_div a k : wf a -> ext_div (val a) (ext_of_Z k) <> None -> rat_diveq_int a k = rat_div_int a k.
+Proof. intros Ha. apply (compound_is_binary _ None); intros e H; [now apply diveq_int_spec|now apply div_int_spec]. Qed.
+
+(* ------------------------------------------------------------------------------------------- *)
+(* comparisons with an integer                                                                 *)
+(* ------------------------------------------------------------------------------------------- *)
+Ltac int_cmp_setup a Ha :=
+  destruct (wf_cases a Ha) as [[Hd Hg]|[->| ->]];
+  [destruct a as [n d]; cbn [rat_num rat_den] in *; rewrite val_mk_fin by assumption; unfold ext_of_Z; rewrite Qof_int | cbn | cbn].
+
+Theorem lt_int_spec a k : wf a -> (rat_lt_int a k = true <-> ext_lt (val a) (ext_of_Z k)).
+Proof.
+  intros Ha. unfold rat_lt_int. int_cmp_setup a Ha.
+  - cbn [ext_lt]. rewrite Qof_lt, Z.ltb_lt by lia. lia.
+  - split; [discriminate|tauto].
+  - tauto.
+Qed.
+
+Theorem gt_int_spec a k : wf a -> (rat_gt_int a k = true <-> ext_lt (ext_of_Z k) (val a)).
+Proof.
+  intros Ha. unfold rat_gt_int. int_cmp_setup a Ha.
+  - cbn [ext_lt]. rewrite Qof_lt, Z.gtb_lt by lia. lia.
+  - tauto.
+  - split; [discriminate|tauto].
+Qed.
+
+Lemma coprime_multiple n d k : 0 < d -> Z.gcd n d = 1 -> n = k * d -> d = 1.
+Proof.
+  intros Hd Hg E. assert (D : (d | Z.gcd n d)) by (apply Z.gcd_greatest; [exists k; lia|exists 1; lia]).
+  rewrite Hg in D. apply Z.divide_1_r_nonneg in D; lia.
+Qed.
+
+Theorem eq_int_spec a k : wf a -> (rat_eq_int a k = true <-> ext_eq (val a) (ext_of_Z k)).
+Proof.
+  intros Ha. unfold rat_eq_int. int_cmp_setup a Ha.
+  - cbn [ext_eq]. rewrite Qof_eq, andb_true_iff, !Z.eqb_eq by lia. split; [intros [-> ->]; lia|].
+    intros E. assert (d = 1) by (apply (coprime_multiple n d k); lia). subst d. lia.
+  - rewrite andb_false_r. split; [discriminate|tauto].
+  - rewrite andb_false_r. split; [discriminate|tauto].
+Qed.
+
+Theorem ne_int_spec a k : wf a -> (rat_ne_int a k = true <-> ~ ext_eq (val a) (ext_of_Z k)).
+Proof.
+  intros Ha. rewrite <- (eq_int_spec a k Ha). unfold rat_ne_int, rat_eq_int.
+  destruct (Z.eqb (rat_num a) k), (Z.eqb (rat_den a) 1); cbn; split; intros; try discriminate; try congruence; auto.
+Qed.
+
+Theorem le_int_spec a k : wf a -> (rat_le_int a k = true <-> ext_le (val a) (ext_of_Z k)).
+Proof.
+  intros Ha. unfold rat_le_int, ext_le. int_cmp_setup a Ha.
+  - cbn [ext_lt ext_eq]. rewrite Qof_lt, Qof_eq, Z.leb_le by lia. lia.
+  - split; [discriminate|tauto].
+  - tauto.
+Qed.
+
+Theorem ge_int_spec a k : wf a -> (rat_ge_int a k = true <-> ext_le (ext_of_Z k) (val a)).
+Proof.
+  intros Ha. unfold rat_ge_int, ext_le. int_cmp_setup a Ha.
+  - cbn [ext_lt ext_eq]. rewrite Qof_lt, Qof_eq, Z.geb_le by lia. lia.
+  - tauto.
+  - split; [discriminate|tauto].
+Qed.
+
+(* ------------------------------------------------------------------------------------------- *)
+(* predicates                                                                                  *)
+(* ------------------------------------------------------------------------------------------- *)
+Ltac pred_setup a Ha :=
+  destruct (wf_cases a Ha) as [[Hd Hg]|[->| ->]];
+  [destruct a as [n d]; cbn [rat_num rat_den] in *; rewrite ?val_mk_fin by assumption; change 0%Q with (Qof 0 1) | cbn | cbn].
+
+Theorem is_zero_spec a : wf a -> (is_zero_rat a = true <-> ext_eq (val a) (Fin 0)).
+Proof.
+  intros Ha. unfold is_zero_rat. pred_setup a Ha.
+  - cbn [ext_eq]. rewrite Qof_eq, Z.eqb_eq by lia. lia.
+  - split; [discriminate|tauto].
+  - split; [discriminate|tauto].
+Qed.
+
+Theorem is_positive_spec a : wf a -> (is_positive_rat a = true <-> ext_lt (Fin 0) (val a)).
+Proof.
+  intros Ha. unfold is_positive_rat. pred_setup a Ha.
+  - cbn [ext_lt]. rewrite Qof_lt, Z.gtb_lt by lia. lia.
+  - tauto.
+  - split; [discriminate|tauto].
+Qed.
+
+Theorem is_negative_spec a : wf a -> (is_negative_rat a = true <-> ext_lt (val a) (Fin 0)).
+Proof.
+  intros Ha. unfold is_negative_rat. pred_setup a Ha.
+  - cbn [ext_lt]. rewrite Qof_lt, Z.ltb_lt by lia. lia.
+  - split; [discriminate|tauto].
+  - tauto.
+Qed.
+
+Theorem is_positive_or_zero_spec a : wf a -> (is_positive_or_zero_rat a = true <-> ext_le (Fin 0) (val a)).
+Proof.
+  intros Ha. unfold is_positive_or_zero_rat, ext_le. pred_setup a Ha.
+  - cbn [ext_lt ext_eq]. rewrite Qof_lt, Qof_eq, Z.geb_le by lia. lia.
+  - tauto.
+  - split; [discriminate|tauto].
+Qed.
+
+Theorem is_negative_or_zero_spec a : wf a -> (is_negative_or_zero_rat a = true <-> ext_le (val a) (Fin 0)).
+Proof.
+  intros Ha. unfold is_negative_or_zero_rat, ext_le. pred_setup a Ha.
+  - cbn [ext_lt ext_eq]. rewrite Qof_lt, Qof_eq, Z.leb_le by lia. lia.
+  - split; [discriminate|tauto].
+  - tauto.
+Qed.
+
+Theorem is_infinite_spec a : wf a -> (is_infinite_rat a = true <-> val a = PInf \/ val a = NInf).
+Proof.
+  intros Ha. unfold is_infinite_rat. pred_setup a Ha.
+  - destruct (Z.eqb_spec d 0); [lia|]. split; [discriminate|intros [H|H]; discriminate].
+  - tauto.
+  - tauto.
+Qed.
+
+Theorem is_positive_infinite_spec a : wf a -> (is_positive_infinite_rat a = true <-> val a = PInf).
+Proof.
+  intros Ha. unfold is_positive_infinite_rat, is_positive_rat, is_infinite_rat. pred_setup a Ha.
+  - destruct (Z.eqb_spec d 0); [lia|]. rewrite andb_false_r. split; discriminate.
+  - tauto.
+  - split; discriminate.
+Qed.
+
+Theorem is_negative_infinite_spec a : wf a -> (is_negative_infinite_rat a = true <-> val a = NInf).
+Proof.
+  intros Ha. unfold is_negative_infinite_rat, is_negative_rat, is_infinite_rat. pred_setup a Ha.
+  - destruct (Z.eqb_spec d 0); [lia|]. rewrite andb_false_r. split; discriminate.
+  - split; discriminate.
+  - tauto.
+Qed.
+
+Theorem is_integer_spec a : wf a -> (is_integer_rat a = true <-> exists z, ext_eq (val a) (ext_of_Z z)).
+Proof.
+  intros Ha. unfold is_integer_rat. pred_setup a Ha.
+  - rewrite Z.eqb_eq. split.
+    + intros ->. exists n. cbn. reflexivity.
+    + intros [z E]. unfold ext_of_Z in E. rewrite Qof_int in E. cbn [ext_eq] in E. rewrite Qof_eq in E by lia.
+      apply (coprime_multiple n d z); lia.
+  - split; [discriminate|intros [z []]].
+  - split; [discriminate|intros [z []]].
+Qed.
+
+(* getters *)
+Theorem numerator_denominator_spec a : a = mk_rat (rat_numerator a) (rat_denominator a).
+Proof. now destruct a. Qed.
+
+
+(* ------------------------------------------------------------------------------------------- *)
+(* bundles used by props/Properties_C15.v (one statement per family of operators)              *)
+(* ------------------------------------------------------------------------------------------- *)
+Theorem ctor_int_spec :
+  (wf rat_ctor /\ val rat_ctor = ext_of_Z 0) /\ (forall n, wf (rat_ctor_int n) /\ val (rat_ctor_int n) = ext_of_Z n).
+Proof. split; [exact ctor0_spec|exact ctor1_spec]. Qed.
+
+Theorem consts_spec :
+  (wf rat_ZERO /\ wf rat_ONE /\ wf rat_POSITIVE_INFINITY /\ wf rat_NEGATIVE_INFINITY) /\
+  (val rat_ZERO = ext_of_Z 0 /\ val rat_ONE = ext_of_Z 1 /\ val rat_POSITIVE_INFINITY = PInf /\ val rat_NEGATIVE_INFINITY = NInf).
+Proof. split; [exact consts_wf|exact consts_val]. Qed.
+
+Theorem rat_compound_is_binary a b k : wf a -> wf b ->
+  (ext_add (val a) (val b) <> None -> rat_addeq_rat a b = rat_add_rat a b) /\
+  (ext_sub (val a) (val b) <> None -> rat_subeq_rat a b = rat_sub_rat a b) /\
+  (ext_mul (val a) (val b) <> None -> rat_muleq_rat a b = rat_mul_rat a b) /\
+  (ext_div (val a) (val b) <> None -> rat_diveq_rat a b = rat_div_rat a b) /\
+  rat_addeq_int a k = rat_add_int a k /\ rat_subeq_int a k = rat_sub_int a k /\
+  (ext_mul (val a) (ext_of_Z k) <> None -> rat_muleq_int a k = rat_mul_int a k) /\
+  (ext_div (val a) (ext_of_Z k) <> None -> rat_diveq_int a k = rat_div_int a k).
+Proof.
+  intros Ha Hb.
+  exact (conj (addeq_rat_is_add a b Ha Hb) (conj (subeq_rat_is_sub a b Ha Hb) (conj (muleq_rat_is_mul a b Ha Hb)
+        (conj (diveq_rat_is_div a b Ha Hb) (conj (addeq_int_is_add a k Ha) (conj (subeq_int_is_sub a k Ha)
+        (conj (muleq_int_is_mul a k Ha) (diveq_int_is_div a k Ha)))))))).
+Qed.
+
+Theorem rat_int_cmp_spec a k : wf a ->
+  (rat_lt_int a k = true <-> ext_lt (val a) (ext_of_Z k)) /\
+  (rat_le_int a k = true <-> ext_le (val a) (ext_of_Z k)) /\
+  (rat_eq_int a k = true <-> ext_eq (val a) (ext_of_Z k)) /\
+  (rat_ne_int a k = true <-> ~ ext_eq (val a) (ext_of_Z k)) /\
+  (rat_ge_int a k = true <-> ext_le (ext_of_Z k) (val a)) /\
+  (rat_gt_int a k = true <-> ext_lt (ext_of_Z k) (val a)).
+Proof.
+  intros Ha. exact (conj (lt_int_spec a k Ha) (conj (le_int_spec a k Ha) (conj (eq_int_spec a k Ha) (conj (ne_int_spec a k Ha) (conj (ge_int_spec a k Ha) (gt_int_spec a k Ha)))))).
+Qed.
+
+Theorem rat_predicates_spec a : wf a ->
+  (is_zero_rat a = true <-> ext_eq (val a) (Fin 0)) /\
+  (is_positive_rat a = true <-> ext_lt (Fin 0) (val a)) /\
+  (is_negative_rat a = true <-> ext_lt (val a) (Fin 0)) /\
+  (is_positive_or_zero_rat a = true <-> ext_le (Fin 0) (val a)) /\
+  (is_negative_or_zero_rat a = true <-> ext_le (val a) (Fin 0)) /\
+  (is_infinite_rat a = true <-> val a = PInf \/ val a = NInf) /\
+  (is_positive_infinite_rat a = true <-> val a = PInf) /\
+  (is_negative_infinite_rat a = true <-> val a = NInf) /\
+  (is_integer_rat a = true <-> exists z, ext_eq (val a) (ext_of_Z z)).
+Proof.
+  intros Ha. exact (conj (is_zero_spec a Ha) (conj (is_positive_spec a Ha) (conj (is_negative_spec a Ha) (conj (is_positive_or_zero_spec a Ha) (conj (is_negative_or_zero_spec a Ha) (conj (is_infinite_spec a Ha) (conj (is_positive_infinite_spec a Ha) (conj (is_negative_infinite_spec a Ha) (is_integer_spec a Ha))))))))).
+Qed.
+
+(* non-vacuity: concrete canonical operands exercising the general branches *)
+Example add_example : wf (mk_rat 1 6) /\ wf (mk_rat 1 10) /\ rat_add_rat (mk_rat 1 6) (mk_rat 1 10) = mk_rat 4 15 /\
+                      rat_mul_rat (mk_rat 3 4) (mk_rat (-2) 9) = mk_rat (-1) 6 /\ rat_div_rat (mk_rat 3 4) (mk_rat (-1) 0) = mk_rat 0 1.
+Proof. repeat split; try (left; cbn; split; [lia|reflexivity]). Qed.
+
+(* the compound assignments, stated directly (they are what lin.cpp uses on its coefficients) *)
+Theorem rat_compound_exact a b k : wf a -> wf b ->
+  (forall e, ext_add (val a) (val b) = Some e -> wf (rat_addeq_rat a b) /\ ext_eq (val (rat_addeq_rat a b)) e) /\
+  (forall e, ext_sub (val a) (val b) = Some e -> wf (rat_subeq_rat a b) /\ ext_eq (val (rat_subeq_rat a b)) e) /\
+  (forall e, ext_mul (val a) (val b) = Some e -> wf (rat_muleq_rat a b) /\ ext_eq (val (rat_muleq_rat a b)) e) /\
+  (forall e, ext_div (val a) (val b) = Some e -> wf (rat_diveq_rat a b) /\ ext_eq (val (rat_diveq_rat a b)) e) /\
+  (forall e, ext_add (val a) (ext_of_Z k) = Some e -> wf (rat_addeq_int a k) /\ ext_eq (val (rat_addeq_int a k)) e) /\
+  (forall e, ext_sub (val a) (ext_of_Z k) = Some e -> wf (rat_subeq_int a k) /\ ext_eq (val (rat_subeq_int a k)) e) /\
+  (forall e, ext_mul (val a) (ext_of_Z k) = Some e -> wf (rat_muleq_int a k) /\ ext_eq (val (rat_muleq_int a k)) e) /\
+  (forall e, ext_div (val a) (ext_of_Z k) = Some e -> wf (rat_diveq_int a k) /\ ext_eq (val (rat_diveq_int a k)) e).
+Proof.
+  intros Ha Hb.
+  exact (conj (fun e => addeq_spec a b e Ha Hb) (conj (fun e => subeq_spec a b e Ha Hb) (conj (fun e => muleq_spec a b e Ha Hb)
+        (conj (fun e => diveq_spec a b e Ha Hb) (conj (fun e => addeq_int_spec a k e Ha) (conj (fun e => subeq_int_spec a k e Ha)
+        (conj (fun e => muleq_int_spec a k e Ha) (fun e => diveq_int_spec a k e Ha)))))))).
+Qed.
